@@ -10,7 +10,11 @@ Record dual_case := {
   dc_edge_neighbors : list (list nat); dc_vertex_neighbors : list (list nat);
   dc_p1_support : list nat; dc_p1_g2l : list (list (nat * nat)); dc_dp0_support : list nat;
   dc_dual0 : option (list triple); dc_dual1 : option (list triple);      (* implementation: summed, sorted, non-zero *)
-  dc_dual0_shape : nat * nat; dc_dual1_shape : nat * nat }.
+  dc_dual0_shape : nat * nat; dc_dual1_shape : nat * nat;
+  dc_dual0_support : list nat; dc_dual1_support : list nat }.     (* support_elements of the two barycentric spaces *)
+
+Definition children (l : list nat) : list nat := flat_map (fun e => map (fun j => (6 * e + j)%nat) (seq 0 6)) l.
+Definition list_eqb (a b : list nat) : bool := Nat.eqb (length a) (length b) && forallb (fun xy => Nat.eqb (fst xy) (snd xy)) (combine a b).
 
 (* model triples (with duplicates) against the implementation's summed non-zero entries *)
 (* 1/n is rounded once by the implementation (and sums of at most two terms): relative tolerance 2^-50 *)
@@ -32,7 +36,8 @@ Definition dual0_case_ok (c : dual_case) : bool :=
   | None, None => true
   | Some m, Some i => same_matrix (length (dc_p1_g2l c)) m i &&
                       Nat.eqb (fst (dc_dual0_shape c)) (6 * length (dc_p1_support c)) &&
-                      Nat.eqb (snd (dc_dual0_shape c)) (length (dc_p1_g2l c))
+                      Nat.eqb (snd (dc_dual0_shape c)) (length (dc_p1_g2l c)) &&
+                      list_eqb (dc_dual0_support c) (children (dc_p1_support c))
   | _, _ => false
   end.
 
@@ -45,5 +50,8 @@ Definition dual1_case_ok (c : dual_case) : bool :=
     Nat.eqb (fst (dc_dual1_shape c))
             (18 * length (support_final (dc_truncate c) (dc_elements c) (dc_element_edges c) (dc_edge_neighbors c)
                                         (dc_vertex_neighbors c) (dc_dp0_support c))) &&
-    Nat.eqb (snd (dc_dual1_shape c)) (length (dc_dp0_support c))
+    Nat.eqb (snd (dc_dual1_shape c)) (length (dc_dp0_support c)) &&
+    list_eqb (dc_dual1_support c)
+             (children (support_final (dc_truncate c) (dc_elements c) (dc_element_edges c) (dc_edge_neighbors c)
+                                      (dc_vertex_neighbors c) (dc_dp0_support c)))
   end.
